@@ -25,6 +25,7 @@ type hostShape struct {
 	Net  string   `json:"net,omitempty"`
 	NoSS bool     `json:"noss,omitempty"` // semi-sync slave off
 	IOStopped bool `json:"iostopped,omitempty"`
+	SQLStopped bool `json:"sqlstopped,omitempty"` // the applier thread is stopped (operator / non-fatal error): received transactions stay unapplied
 }
 
 type reqSpec struct {
@@ -170,6 +171,8 @@ type vHook struct {
 	onFire  func()
 	mutOnly bool
 	pendingZk *faultSpec
+	blipKey   string // zkblip: "client|op|key" whose retries fail too
+	blipLeft  int
 	byN       int
 	extra     verifsim.MyHook // property-specific hook consulted first
 }
@@ -313,6 +316,16 @@ func (h *vHook) BeforeZk(client, op, path string) (int32, bool) {
 	if strings.HasPrefix(key, "health/") || strings.HasPrefix(key, "resetup_status") {
 		return 0, false
 	}
+	h.mu.Lock()
+	if h.blipLeft > 0 {
+		if h.blipKey == client+"|"+op+"|"+key {
+			h.blipLeft--
+			h.mu.Unlock()
+			return -4, false
+		}
+		h.blipLeft = 0 // another call: the blip is over
+	}
+	h.mu.Unlock()
 	f := h.match("zk", op, key, mut)
 	if f == nil {
 		return 0, false
@@ -332,6 +345,13 @@ func (h *vHook) BeforeZk(client, op, path string) (int32, bool) {
 	case "zkloss":
 		go h.s.Z.Cut(client)
 		return 0, true
+	case "zkblip":
+		// the coordination service is lost for this ONE call: the request and the client's retries of it are answered
+		// with a connection loss, the session (and the lock) survive and the very next call works again
+		h.mu.Lock()
+		h.blipKey, h.blipLeft = client+"|"+op+"|"+key, 4
+		h.mu.Unlock()
+		return -4, false
 	case "zkexpire", "zkexpire_other":
 		// the session is expired by the server right before this request is processed
 		h.expire(client, f.Kind == "zkexpire_other")
@@ -425,6 +445,9 @@ func (s *vSim) applyShape(sc *vScenario) {
 		}
 		if sh.IOStopped {
 			x.IO = "No"
+		}
+		if sh.SQLStopped {
+			x.SQL = false
 		}
 	}
 	// txn counters past everything present
